@@ -188,7 +188,7 @@ func cmdCheck(args []string) int {
 	}
 	v.known = loadKnown(*verif)
 	v.prop = *prop
-	quickS, fullS, agree := 4, 12, false
+	quickS, fullS, agree := 1, 30, false
 	if *tier == "thorough" {
 		quickS, fullS, agree = 10, 90, true
 	}
@@ -223,14 +223,39 @@ func cmdCheck(args []string) int {
 			if len(modes) > 1 {
 				name = n + "[" + m + "]"
 			}
-			fx := v.newExec(f, name, c, m)
-			err := fx.run()
-			runs = append(runs, &funcRun{n, m, fx, err})
-			if err != nil {
-				bindingFailures = append(bindingFailures, fmt.Sprintf("%s/binding: %v", name, err))
-				continue
+			ncase := len(c.Cases)
+			for ci := -1; ci < ncase; ci++ {
+				if ncase == 0 && ci >= 0 {
+					break
+				}
+				cname := name
+				if ci >= 0 {
+					cname = fmt.Sprintf("%s{case %d}", name, ci+1)
+				}
+				fx := v.newExec(f, cname, c, m)
+				fx.caseIdx = ci
+				if ncase > 0 && ci == -1 {
+					// only the exhaustiveness obligation is taken from the un-split run
+					fx.exhaustOnly = true
+				}
+				err := fx.run()
+				if ci <= 0 {
+					runs = append(runs, &funcRun{n, m, fx, err})
+				}
+				if err != nil {
+					bindingFailures = append(bindingFailures, fmt.Sprintf("%s/binding: %v", cname, err))
+					continue
+				}
+				if fx.exhaustOnly {
+					for _, o := range fx.obls {
+						if strings.HasSuffix(o.Name, "/cases:exhaustive") {
+							obls = append(obls, o)
+						}
+					}
+					continue
+				}
+				obls = append(obls, fx.obls...)
 			}
-			obls = append(obls, fx.obls...)
 		}
 	}
 	// lemmas
@@ -252,7 +277,7 @@ func cmdCheck(args []string) int {
 	}
 	dir, _ := os.MkdirTemp("", "govc-"+*prop)
 	defer os.RemoveAll(dir)
-	dischargeAll(obls, dir, quickS, fullS, agree, 14)
+	dischargeAll(obls, dir, quickS, fullS, agree, 10)
 
 	rep := newReport(v, *prop, *tier, seed, pc)
 	rep.collect(runs, obls, bindingFailures, *verbose)
